@@ -344,8 +344,6 @@ def _legit_target(wire):
             nack = lp['nack']
             if not c07.lp_in_order(lp['types']):
                 return ('ambiguous', None)    # header fields repeated / out of order: not stated which one counts
-            if nack and lp['nack_reason'] is None:
-                return ('ambiguous', None)    # Nack header without a reason: the statement does not say (see C10)
             b = lp['fragment']
             t = rc.read_var(b, 0, len(b))[0]
         if nack:
